@@ -1063,3 +1063,390 @@ C18_WITHFNS = WITHFNS_RS + '''
 pub fn any_ser<T, W: borsh::io::Write>(_x: &T, _w: &mut W) -> borsh::io::Result<()> { Ok(()) }
 pub fn any_de<T: Default, R: borsh::io::Read>(_r: &mut R) -> borsh::io::Result<T> { Ok(T::default()) }
 '''
+
+
+# ------------------------------------------------------------------ C06_bounds: generic items with type EXPRESSIONS
+# (coq/Generics.v).  A generic item description:
+#   {'name', 'kind': 'struct'|'enum', 'params': [(P, default gty | None)], 'tr': {P,..} (inline `P: crate::Tr`),
+#    'where': [pred], 'fields': [gfield] | 'variants': [{'name', 'fields'}]}
+#   gfield = {'name', 'skip', 'bser': None|[pred], 'bde': None|[pred], 'sparams': None|[(P, gty)], 'ty': gty}
+#   pred   = ('user', gty, [trait path, ...])
+#   gty    = ('param', P) | ('path', q|None, qpos, colon, [(ident, args)]) | ('wrap', w, gty) | ('tuple', [gty])
+#          | ('fn', [gty], out|None) | ('macro', name, [ident]) | ('other', text)
+#   args   = None | ('angle', [('ty', gty) | ('assoc', id, gty) | ('other', text)])
+#   w      = ('array', n) | 'slice' | ('ref', lifetime, mut) | 'paren'
+def g_name(n):
+    return ('path', None, 0, False, [(s, None) for s in n.split('::')])
+
+
+def g_app(n, *args):
+    segs = [(s, None) for s in n.split('::')]
+    segs[-1] = (segs[-1][0], ('angle', [('ty', a) for a in args]))
+    return ('path', None, 0, False, segs)
+
+
+def g_param(p):
+    return ('param', p)
+
+
+def g_assoc(p):
+    return ('path', None, 0, False, [(p, None), ('A', None)])
+
+
+def g_qassoc(p):
+    return ('path', ('param', p), 2, False, [('crate', None), ('Tr', None), ('A', None)])
+
+
+def g_phantom(t):
+    return g_app('core::marker::PhantomData', t)
+
+
+def gty_rust(t):
+    k = t[0]
+    if k == 'param':
+        return t[1]
+    if k == 'path':
+        _, q, qpos, colon, segs = t
+        parts = []
+        for ident, args in segs:
+            s = ident
+            if args is not None:
+                s += '<' + ', '.join(gty_rust(a[1]) if a[0] == 'ty' else ('%s = %s' % (a[1], gty_rust(a[2])) if a[0] == 'assoc' else a[1])
+                                     for a in args[1]) + '>'
+            parts.append(s)
+        lead = '::' if colon else ''
+        if q is None:
+            return lead + '::'.join(parts)
+        inside = '::'.join(parts[:qpos])
+        rest = '::'.join(parts[qpos:])
+        return '<%s%s>::%s' % (gty_rust(q), (' as ' + lead + inside) if qpos else '', rest)
+    if k == 'wrap':
+        w = t[1]
+        if w == 'slice':
+            return '[%s]' % gty_rust(t[2])
+        if w == 'paren':
+            return '(%s)' % gty_rust(t[2])
+        if w[0] == 'array':
+            return '[%s; %s]' % (gty_rust(t[2]), w[1])
+        if w[0] == 'ref':
+            return '&%s%s%s' % (w[1] + ' ' if w[1] else '', 'mut ' if w[2] else '', gty_rust(t[2]))
+    if k == 'tuple':
+        return '(' + ''.join(gty_rust(x) + ', ' for x in t[1]) + ')'
+    if k == 'fn':
+        return 'fn(%s)%s' % (', '.join(gty_rust(x) for x in t[1]), '' if t[2] is None else ' -> ' + gty_rust(t[2]))
+    if k == 'macro':
+        return '%s!(%s)' % (t[1], ' '.join(t[2]))
+    if k == 'other':
+        return t[1]
+    raise ValueError(t)
+
+
+def gty_sexp(t):
+    k = t[0]
+    if k == 'param':
+        return '(param %s)' % t[1]
+    if k == 'path':
+        _, q, qpos, colon, segs = t
+
+        def args_s(a):
+            if a is None:
+                return 'none'
+            return '(angle %s)' % ' '.join('(ty %s)' % gty_sexp(x[1]) if x[0] == 'ty' else
+                                          ('(assoc %s %s)' % (x[1], gty_sexp(x[2])) if x[0] == 'assoc' else '(other %s)' % x[1].replace(' ', ''))
+                                          for x in a[1])
+        return '(path %s %d %d %s)' % ('none' if q is None else gty_sexp(q), qpos, 1 if colon else 0,
+                                       ' '.join('(seg %s %s)' % (i, args_s(a)) for i, a in segs))
+    if k == 'wrap':
+        w = t[1]
+        ws = w if isinstance(w, str) else ('(array %s)' % w[1] if w[0] == 'array' else '(ref %s %d)' % (w[1] or '-', 1 if w[2] else 0))
+        return '(wrap %s %s)' % (ws, gty_sexp(t[2]))
+    if k == 'tuple':
+        return '(tuple %s)' % ' '.join(gty_sexp(x) for x in t[1])
+    if k == 'fn':
+        return '(fn (%s) %s)' % (' '.join(gty_sexp(x) for x in t[1]), 'none' if t[2] is None else gty_sexp(t[2]))
+    if k == 'macro':
+        return '(macro %s %s)' % (t[1], ' '.join(t[2]))
+    if k == 'other':
+        return '(other %s)' % t[1].replace(' ', '')
+    raise ValueError(t)
+
+
+def gpred_rust(p):
+    return '%s: %s' % (gty_rust(p[1]), ' + '.join(p[2])) if p[2] else '%s:' % gty_rust(p[1])
+
+
+def _trait_sexp(tr):
+    """a trait bound: a plain path `a::b::C`, or `Name<P>` with one type-parameter argument"""
+    if '<' in tr:
+        name, arg = tr[:-1].split('<')
+        return '(trait 0 (seg %s (angle (ty (param %s)))))' % (name, arg)
+    return '(trait 0 %s)' % ' '.join('(seg %s none)' % s for s in tr.split('::'))
+
+
+def gpred_sexp(p):
+    return '(user %s %s)' % (gty_sexp(p[1]), ' '.join(_trait_sexp(tr) for tr in p[2]))
+
+
+def gty_params(t):
+    """the identifiers in type position of a type expression (what rustc counts as a use of a parameter)"""
+    k = t[0]
+    if k == 'param':
+        return {t[1]}
+    if k == 'path':
+        out = set() if t[1] is None else gty_params(t[1])
+        if t[1] is None and not t[3]:
+            out.add(t[4][0][0])
+        for _, args in t[4]:
+            if args is not None:
+                for a in args[1]:
+                    if a[0] == 'ty':
+                        out |= gty_params(a[1])
+                    elif a[0] == 'assoc':
+                        out |= gty_params(a[2])
+        return out
+    if k == 'wrap':
+        return gty_params(t[2])
+    if k == 'tuple':
+        return set().union(*[gty_params(x) for x in t[1]]) if t[1] else set()
+    if k == 'fn':
+        out = set().union(*[gty_params(x) for x in t[1]]) if t[1] else set()
+        return out | (gty_params(t[2]) if t[2] is not None else set())
+    return set()
+
+
+def gfield_attr_rust(f):
+    parts = []
+    if f['skip']:
+        parts.append('skip')
+    b = []
+    if f['bser'] is not None:
+        b.append('serialize = "%s"' % ', '.join(gpred_rust(p) for p in f['bser']))
+    if f['bde'] is not None:
+        b.append('deserialize = "%s"' % ', '.join(gpred_rust(p) for p in f['bde']))
+    if b:
+        parts.append('bound(%s)' % ', '.join(b))
+    if f['sparams'] is not None:
+        parts.append('schema(params = "%s")' % ', '.join('%s => %s' % (p, gty_rust(t)) for p, t in f['sparams']))
+    return '#[borsh(%s)] ' % ', '.join(parts) if parts else ''
+
+
+def gfield_sexp(f):
+    def preds(l):
+        return 'none' if l is None else '(preds %s)' % ' '.join(gpred_sexp(p) for p in l)
+    sp = 'none' if f['sparams'] is None else '(params %s)' % ' '.join('(%s %s)' % (p, gty_sexp(t)) for p, t in f['sparams'])
+    return '(gfield %s %d %s %s %s %s)' % (f['name'], 1 if f['skip'] else 0, preds(f['bser']), preds(f['bde']), sp, gty_sexp(f['ty']))
+
+
+def gitem_fields(it):
+    return it['fields'] if it['kind'] == 'struct' else [f for v in it['variants'] for f in v['fields']]
+
+
+def gitem_sexp(it):
+    ps = ' '.join('(type %s %s)' % (p, 'none' if d is None else gty_sexp(d)) for p, d in it['params'])
+    w = ' '.join(gpred_sexp(p) for p in it['where'])
+    if it['kind'] == 'struct':
+        body = '(struct %s)' % ' '.join(gfield_sexp(f) for f in it['fields'])
+    else:
+        body = '(enum %s)' % ' '.join('(variant %s %s)' % (v['name'], ' '.join(gfield_sexp(f) for f in v['fields'])) for v in it['variants'])
+    return '(gitem %s (%s) (%s) %s)' % (it['name'], ps, w, body)
+
+
+def gitem_rust(it, derives=('BorshSerialize', 'BorshDeserialize', 'BorshSchema')):
+    """the definition with the given derives; tuple-shaped when the field names are numbers"""
+    gen = '<%s>' % ', '.join('%s%s%s' % (p, ': crate::Tr' if p in it['tr'] else '', '' if d is None else ' = ' + gty_rust(d))
+                             for p, d in it['params'])
+    where = (' where ' + ', '.join(gpred_rust(p) for p in it['where'])) if it['where'] else ''
+
+    def body(fields, vis):
+        if not fields:
+            return None
+        if fields[0]['name'].isdigit():
+            return '(' + ', '.join('%s%s%s' % (gfield_attr_rust(f), vis, gty_rust(f['ty'])) for f in fields) + ')'
+        return ' { ' + ', '.join('%s%s%s: %s' % (gfield_attr_rust(f), vis, f['name'], gty_rust(f['ty'])) for f in fields) + ' }'
+    lines = ['#[derive(%s)]' % ', '.join('borsh::' + d for d in derives)]
+    if it['kind'] == 'struct':
+        b = body(it['fields'], 'pub ')
+        if b is None:
+            lines.append('pub struct %s%s%s;' % (it['name'], gen, where))
+        elif b.startswith('('):
+            lines.append('pub struct %s%s%s%s;' % (it['name'], gen, b, where))
+        else:
+            lines.append('pub struct %s%s%s%s' % (it['name'], gen, where, b))
+    else:
+        lines.append('pub enum %s%s%s { %s }' % (it['name'], gen, where, ', '.join(v['name'] + (body(v['fields'], '') or '') for v in it['variants'])))
+    return '\n'.join(lines)
+
+
+SER, DE, SCH = 'borsh::ser::BorshSerialize', 'borsh::de::BorshDeserialize', 'borsh::BorshSchema'
+
+
+def _gf(name, ty, skip=False, bser=None, bde=None, sparams=None):
+    return {'name': name, 'ty': ty, 'skip': skip, 'bser': bser, 'bde': bde, 'sparams': sparams}
+
+
+def gen_gfield(rng, name, params, it):
+    """one field over the parameters; records in it['tr'] which parameters need `: crate::Tr`"""
+    P = rng.choice(params)
+    Q = rng.choice(params)
+    p, q = g_param(P), g_param(Q)
+    c = rng.choice(['whole', 'whole', 'vec', 'opt', 'box', 'arr', 'tup', 'nested', 'phantom', 'phantom2', 'assoc', 'assoc_nested',
+                    'qassoc', 'hashmap', 'skip', 'skip_nobound', 'skip_fn', 'skip_phantom', 'skip_assoc', 'bound_ser_only',
+                    'primary', 'macro', 'concrete', 'concrete', 'paren'])
+    if c == 'whole':
+        return _gf(name, p)
+    if c == 'vec':
+        return _gf(name, g_app('Vec', p))
+    if c == 'opt':
+        return _gf(name, g_app('Option', p))
+    if c == 'box':                               # (Box<T>: BorshDeserialize needs T: Clone through ToOwned -- not used)
+        return _gf(name, g_app('std::collections::VecDeque', p))
+    if c == 'arr':
+        return _gf(name, ('wrap', ('array', '2'), p))
+    if c == 'paren':
+        return _gf(name, ('wrap', 'paren', g_app('Vec', p)))
+    if c == 'tup':
+        return _gf(name, ('tuple', [p, g_name('u8')]))
+    if c == 'nested':
+        return _gf(name, ('tuple', [g_name('u16'), g_app('Vec', g_app('Option', q)), p]))
+    if c == 'phantom':
+        return _gf(name, g_phantom(p))
+    if c == 'phantom2':
+        return _gf(name, g_phantom(('tuple', [p, g_app('Vec', q)])))
+    if c == 'assoc':
+        it['tr'].add(P)
+        return _gf(name, g_assoc(P))
+    if c == 'assoc_nested':                      # not inferred at all: all three need the override
+        it['tr'].add(P)
+        a = g_assoc(P)
+        return _gf(name, g_app('Vec', a), bser=[('user', a, [SER])], bde=[('user', a, [DE])], sparams=[(P, a)])
+    if c == 'qassoc':                            # inferred "erroneously" as P: Trait
+        it['tr'].add(P)
+        a = g_qassoc(P)
+        if rng.random() < 0.5:
+            return _gf(name, a, bser=[('user', a, [SER])], bde=[('user', a, [DE])], sparams=[(P, a)])
+        it['where'].append(('user', a, [SER, DE, SCH]))
+        return _gf(name, a)
+    if c == 'hashmap':
+        return _gf(name, g_app('std::collections::HashMap', p, q),
+                   bser=[('user', p, [SER, 'Ord']), ('user', q, [SER])],
+                   bde=[('user', p, [DE, 'Ord', 'core::hash::Hash', 'Eq']), ('user', q, [DE])])
+    if c == 'skip':
+        return _gf(name, g_app('Vec', p), skip=True)
+    if c == 'skip_nobound':
+        return _gf(name, g_app('Vec', p), skip=True, bde=[])
+    if c == 'skip_fn':
+        return _gf(name, g_app('Option', ('fn', [p], q)), skip=True)
+    if c == 'skip_phantom':
+        return _gf(name, g_phantom(p), skip=True)
+    if c == 'skip_assoc':
+        it['tr'].add(P)
+        return _gf(name, g_assoc(P), skip=True)
+    if c == 'bound_ser_only':
+        return _gf(name, g_app('Vec', p), bser=[('user', p, [SER, 'Clone'])])
+    if c == 'primary':
+        return _gf(name, g_app('crate::PrimaryMap', p, q), sparams=[(Q, q)])
+    if c == 'macro':
+        return _gf(name, ('macro', P, []))
+    return _gf(name, rng.choice([g_name('u8'), g_name('String'), g_app('Vec', g_name('u16'))]))
+
+
+def gen_bounds_item(rng, idx):
+    n = rng.choice([1, 2, 2, 3])
+    params = ['T%d' % i for i in range(n)]
+    it = {'name': 'G%d' % idx, 'kind': rng.choice(['struct', 'struct', 'enum']), 'tr': set(), 'where': [],
+          'params': [(p, None) for p in params]}
+    if n >= 2 and rng.random() < 0.2:           # a defaulted last parameter (`without_defaults`)
+        it['params'][-1] = (params[-1], g_name('u8'))
+    if it['kind'] == 'struct':
+        named = rng.random() < 0.6
+        k = rng.choice([1, 2, 3, 4, 5])
+        it['fields'] = [gen_gfield(rng, ('f%d' % i) if named else str(i), params, it) for i in range(k)]
+    else:
+        it['variants'] = []
+        for v in range(rng.choice([1, 2, 3])):
+            named = rng.random() < 0.5
+            k = rng.choice([0, 1, 2, 3])
+            it['variants'].append({'name': 'V%d' % v,
+                                   'fields': [gen_gfield(rng, ('f%d' % i) if named else str(i), params, it) for i in range(k)]})
+    # every parameter must be used by the definition itself (E0392): add a PhantomData field for the unused ones
+    used = set().union(*[gty_params(f['ty']) for f in gitem_fields(it)]) if gitem_fields(it) else set()
+    for p in params:
+        if p not in used:
+            fs = it['fields'] if it['kind'] == 'struct' else None
+            if fs is None:
+                if not it['variants'] or (it['variants'][-1]['fields'] and not it['variants'][-1]['fields'][0]['name'].isdigit()):
+                    it['variants'].append({'name': 'V%d' % len(it['variants']), 'fields': []})
+                fs = it['variants'][-1]['fields']
+            named = bool(fs) and not fs[0]['name'].isdigit()
+            if it['kind'] == 'enum' and rng.random() < 0.6:     # (a PhantomData-only variant runs into F14 under BorshSchema)
+                fs.append(_gf(('ph%d' % len(fs)) if named else str(len(fs)), g_param(p), skip=True))
+            else:
+                fs.append(_gf(('ph%d' % len(fs)) if named else str(len(fs)), g_phantom(g_param(p))))
+    return it
+
+
+def gitem_of_item(it):
+    """the generic items of gen_items() as generic item descriptions: parameter positions, skip flags kept;
+    concrete field types (which may name other generated items) replaced by u8"""
+    def conv(f):
+        if f.get('param'):
+            how, p = f['param']
+            ty = g_param(p) if how == 'whole' else g_app('Vec', g_param(p))
+        else:
+            ty = g_name('u8')
+        name = f['name'] if not f['name'].isdigit() else f['name']
+        return _gf(name if name not in RESERVED else name + '_', ty, skip=bool(f['skip']))
+    g = {'name': it['name'] + 'G', 'kind': it['kind'], 'tr': set(), 'where': [], 'params': [(p, None) for p, _ in it['params']]}
+    if it['kind'] == 'struct':
+        g['fields'] = [conv(f) for f in it['fields']]
+    else:
+        g['variants'] = [{'name': v['name'], 'fields': [conv(f) for f in v['fields']]} for v in it['variants']]
+    return g
+
+
+FIXED_BOUNDS_ITEMS = None
+
+
+def fixed_bounds_items():
+    """the examples of the rustdoc and of NOTES-derive2.md, always part of the corpus"""
+    T, U, V, K = g_param('T0'), g_param('T1'), g_param('T2'), g_param('T0')
+    a = g_qassoc('T0')
+    out = [
+        {'name': 'DocA', 'kind': 'struct', 'tr': set(), 'where': [], 'params': [('T0', None), ('T1', None)],
+         'fields': [_gf('x', T), _gf('y', U)]},
+        {'name': 'DocASkip', 'kind': 'struct', 'tr': set(), 'where': [], 'params': [('T0', None), ('T1', None)],
+         'fields': [_gf('x', T), _gf('y', U, skip=True)]},
+        {'name': 'DocHashMapSkip', 'kind': 'struct', 'tr': set(), 'where': [], 'params': [('T0', None), ('T1', None), ('T2', None)],
+         'fields': [_gf('0', g_app('std::collections::HashMap', T, U), skip=True, bde=[]), _gf('1', V)]},
+        {'name': 'DocQAssoc', 'kind': 'struct', 'tr': {'T0'}, 'where': [], 'params': [('T0', None), ('T1', None)],
+         'fields': [_gf('field', a, bser=[('user', a, [SER])], bde=[('user', a, [DE])], sparams=[('T0', a)]), _gf('another', U)]},
+        {'name': 'SnapAssoc', 'kind': 'struct', 'tr': {'T1'}, 'where': [], 'params': [('T0', None), ('T1', None)],
+         'fields': [_gf('field', g_assoc('T1')), _gf('another', T)]},
+        {'name': 'DocPrimary', 'kind': 'struct', 'tr': set(), 'where': [], 'params': [('T0', None), ('T1', None)],
+         'fields': [_gf('x', g_app('crate::PrimaryMap', T, U), sparams=[('T1', U)]), _gf('y', g_name('String'))]},
+        {'name': 'PhantomS', 'kind': 'struct', 'tr': set(), 'where': [], 'params': [('T0', None)],
+         'fields': [_gf('a', g_phantom(T)), _gf('b', g_name('u8'))]},
+        {'name': 'PhantomE', 'kind': 'enum', 'tr': set(), 'where': [], 'params': [('T0', None)],
+         'variants': [{'name': 'A', 'fields': [_gf('0', g_phantom(T))]}, {'name': 'B', 'fields': [_gf('0', g_name('u8'))]}]},
+        {'name': 'F9', 'kind': 'enum', 'noprobe': True, 'tr': set(), 'where': [('user', T, ['Into<T1>'])], 'params': [('T0', None), ('T1', None)],
+         'variants': [{'name': 'X', 'fields': [_gf('0', T)]}, {'name': 'Y', 'fields': [_gf('0', U)]}]},
+        {'name': 'MacroS', 'kind': 'struct', 'tr': set(), 'where': [], 'params': [('T0', None)],
+         'fields': [_gf('mac', ('macro', 'T0', [])), _gf('marker', g_phantom(T))]},
+        {'name': 'SkipE', 'kind': 'enum', 'tr': set(), 'where': [], 'params': [('T0', None), ('T1', None)],
+         'variants': [{'name': 'A', 'fields': [_gf('0', T, skip=True), _gf('1', g_name('u8'))]},
+                      {'name': 'B', 'fields': [_gf('x', g_app('Vec', U))]}, {'name': 'C', 'fields': []}]},
+    ]
+    return out
+
+
+def gen_bounds_items(seed, count):
+    rng = random.Random(seed * 7919 + 23)
+    items = fixed_bounds_items()
+    for it in gen_items(seed, 170):
+        if it.get('generic'):
+            items.append(gitem_of_item(it))
+    i = 0
+    while len(items) < count:
+        items.append(gen_bounds_item(rng, i))
+        i += 1
+    return items
